@@ -5,7 +5,7 @@ From FlacWriters Require Meta.
 From FlacWriters Require Import Params Finalize C09_proofs Writers.
 From FlacMeta Require Bytes Blocks BlockList Props_C11 Utf8.
 From FlacE2E Require Import E2E Props_E2E.
-From FlacWriters Require Import Params_proofs Encoder_proofs.
+From FlacWriters Require Import Params_proofs Encoder_proofs Bytes_proofs Writers_proofs.
 From FlacE2EMeta Require Import MetaBridge FinishedBlocks.
 Import ListNotations.
 Open Scope N_scope.
@@ -55,6 +55,30 @@ Example C11_presets_qualify :
   Forall plain (o_metadata options_best) /\ seektables (o_metadata options_best) = 0%nat.
 Proof. repeat split; repeat constructor. Qed.
 
+(* ... and for the other two front-ends (by equality of runs, C08_byte_run_is_sample_run / C08_channel_run_is_sample_run) *)
+Theorem C11_byte_writer_metadata_read : forall enc_block md5 p,
+  (forall l, length (md5 l) = 16%nat) -> (forall l, Forall (fun b => b < 256) (md5 l)) ->
+  forall (u : list N -> bool), FlacMeta.Props_C11.utf8_ok u ->
+  forall en o rate bps ch tb wb chunks f,
+  options_wf o -> Forall plain (o_metadata o) -> seektables (o_metadata o) = 0%nat ->
+  byte_new p en [] o rate bps ch tb = Ok wb -> Forall byte_ok (concat chunks) ->
+  byte_run enc_block md5 p wb chunks = Ok f -> counters_fit (f_enc f) ->
+  FlacMeta.BlockList.read_blocks u (f_stream f) =
+    Ok (FlacMeta.Blocks.BStreaminfo (convM (f_si f)) :: map convB (f_blocks f)).
+Proof. exact byte_writer_metadata_read. Qed.
+Theorem C11_channel_writer_metadata_read : forall enc_block md5 p,
+  (forall l, length (md5 l) = 16%nat) -> (forall l, Forall (fun b => b < 256) (md5 l)) ->
+  forall (u : list N -> bool), FlacMeta.Props_C11.utf8_ok u ->
+  forall o rate bps ch tc wc chunks f,
+  options_wf o -> Forall plain (o_metadata o) -> seektables (o_metadata o) = 0%nat ->
+  channel_new p [] o rate bps ch tc = Ok wc -> Forall (chunk_ok (N.to_nat ch)) chunks ->
+  channel_run enc_block md5 p wc chunks = Ok f -> counters_fit (f_enc f) ->
+  FlacMeta.BlockList.read_blocks u (f_stream f) =
+    Ok (FlacMeta.Blocks.BStreaminfo (convM (f_si f)) :: map convB (f_blocks f)).
+Proof. exact channel_writer_metadata_read. Qed.
+
+Print Assumptions C11_byte_writer_metadata_read.
+Print Assumptions C11_channel_writer_metadata_read.
 Print Assumptions C11_sample_writer_metadata_read.
 Print Assumptions C11_written_metadata_read_in_full.
 Print Assumptions C11_sample_writer_metadata_read_in_full.
